@@ -174,7 +174,39 @@ def calibration(u: Unit):
                 rest = calls[i + 1:]
                 order_ok = "self._pygmo_archi.wait_check" in rest and all(
                     rest.index("self._pygmo_archi.wait_check") < rest.index(c) for c in rest if c in ("self._get_champions", "self.get_best_individuals"))
-    u.static("calib.wait_check", order_ok, ev.qualname, "every archi.evolve() is followed by wait_check() before champions are read")
+    u.static("calib.wait_check", order_ok, ev.qualname, "every archi.evolve() is followed by wait_check() before champions are read", replay=lambda w: WAIT_REPLAY)
+
+
+WAIT_REPLAY = {"code": """
+import numpy as np, tempfile, pathlib, warnings, logging
+import verif_probes as VP
+import pyxel
+from pyxel.calibration import Algorithm, Calibration
+from pyxel.calibration.fitness import sum_of_abs_residuals
+from pyxel.observation import ParameterValues
+from pyxel.pipelines import DetectionPipeline, ModelFunction
+warnings.filterwarnings('ignore'); logging.disable(logging.CRITICAL)
+d = pathlib.Path(tempfile.mkdtemp())
+det = VP.detector()
+rows, cols = det.geometry.row, det.geometry.col
+np.save(d / 'target.npy', np.full((rows, cols), 50.0))
+pop = 8
+VP.CALLS.update(n=0, fail_at=pop + 3)        # after the initial population: inside the first evolve round
+pipe = DetectionPipeline(photon_collection=[ModelFunction(func='verif_probes.set_image', name='img', arguments={'level': 1.0, 'gain': 1.0}),
+                                            ModelFunction(func='verif_probes.fail_at_call', name='flaky', arguments={})])
+cal = Calibration(target_data_path=[d / 'target.npy'], fitness_function=sum_of_abs_residuals, algorithm=Algorithm(type='sade', generations=2, population_size=pop),
+                  parameters=[ParameterValues(key='pipeline.photon_collection.img.arguments.level', values='_', boundaries=(1.0, 100.0))],
+                  result_type='image', result_fit_range=(0, rows, 0, cols), target_fit_range=(0, rows, 0, cols), num_islands=1, num_evolutions=2,
+                  pygmo_seed=1234, pipeline_seed=1, topology='unconnected')
+try:
+    pyxel.run_mode(mode=cal, detector=det, pipeline=pipe, with_inherited_coords=True)
+    VIOLATED, DETAIL = (VP.CALLS['n'] >= VP.CALLS['fail_at']), f"a model failed on call {VP.CALLS['fail_at']} (inside an evolve round; {VP.CALLS['n']} calls made) but the calibration returned a result"
+except BaseException as e:
+    import traceback
+    text = ''.join(traceback.format_exception(e))
+    VIOLATED = 'probe failure at call' not in text
+    DETAIL = 'calibration raised ' + type(e).__name__ + ('' if not VIOLATED else ' without the model failure: ' + text[-300:])
+""", "expect": "a model failing inside an evolve round makes the calibration fail with that exception"}
 
 
 # ---- a failing run inside the sequential sweep --------------------------------------------------------------------------
